@@ -52,15 +52,20 @@ fn child() -> i32 {
             let mut data = vec![0u8; len];
             inp.read_exact(&mut data).unwrap();
             // off width big_endian value del_from del_to cut: write the value, delete [del_from, del_to), keep the first `cut` bytes (0: all)
+            // (then groups of `off width big_endian value`: writes that ENABLE the field, applied first)
             let mut muts: Vec<(usize, usize, bool, u64, usize, usize, usize)> = Vec::with_capacity(nmut);
+            let mut pres: Vec<Vec<(usize, usize, bool, u64)>> = Vec::with_capacity(nmut);
             for _ in 0..nmut { let mut l = String::new(); inp.read_line(&mut l).unwrap(); let g: Vec<&str> = l.trim().split(' ').collect();
-                muts.push((g[0].parse().unwrap(), g[1].parse().unwrap(), g[2] == "1", g[3].parse().unwrap(), g[4].parse().unwrap(), g[5].parse().unwrap(), g[6].parse().unwrap())); }
+                muts.push((g[0].parse().unwrap(), g[1].parse().unwrap(), g[2] == "1", g[3].parse().unwrap(), g[4].parse().unwrap(), g[5].parse().unwrap(), g[6].parse().unwrap()));
+                pres.push(g[7..].chunks(4).filter(|c| c.len() == 4).map(|c| (c[0].parse().unwrap(), c[1].parse().unwrap(), c[2] == "1", c[3].parse().unwrap())).collect()); }
             let rss0 = hwm_kb().max(rss_kb());
             let bound_us = 4_000_000 + 60 * len as u128;
             let (mut n_panic, mut n_slow, mut max_us) = (0usize, 0usize, 0u128);
             let mut o = out.lock();
             for (k, (off, w, be, val, da, db, cut)) in muts.iter().enumerate() {
                 writeln!(o, "AT {} {}", idx, k).unwrap(); o.flush().unwrap();
+                let saved_pre: Vec<(usize, Vec<u8>)> = pres[k].iter().map(|(o, w, _, _)| (*o, data[*o..*o + *w].to_vec())).collect();
+                for (po, pw, pbe, pv) in &pres[k] { fields::wr(&mut data, *po, *pw, *pbe, *pv); }
                 let saved: Vec<u8> = data[*off..*off + *w].to_vec();
                 if *w > 0 { fields::wr(&mut data, *off, *w, *be, *val); }
                 let structural: Option<Vec<u8>> = if da < db || *cut > 0 { let mut v = data.clone(); if da < db { v.drain(*da..*db); } if *cut > 0 { v.truncate(*cut); } Some(v) } else { None };
@@ -70,6 +75,7 @@ fn child() -> i32 {
                 let us = t.elapsed().as_micros();
                 drop(structural);
                 data[*off..*off + *w].copy_from_slice(&saved);
+                for (o, b) in saved_pre.iter().rev() { data[*o..*o + b.len()].copy_from_slice(b); }
                 max_us = max_us.max(us);
                 match r {
                     Ok(()) => { if us > bound_us { n_slow += 1; writeln!(o, "SWFAIL {} {} slow {}", idx, k, us).unwrap(); } }
@@ -590,11 +596,12 @@ fn amplification_inputs(big: bool) -> Vec<Input> {
 // ---------------------------------------------------------------- boundary sweeps
 /// one mutation of a carrier: the field at `off` (width `w`) set to `val`; w = 0 is the carrier itself
 #[derive(Clone, Default)]
-struct Mutn { off: usize, w: usize, be: bool, val: u64, del: (usize, usize), cut: usize, what: String }
+struct Mutn { off: usize, w: usize, be: bool, val: u64, del: (usize, usize), cut: usize, what: String, pre: Vec<(usize, usize, bool, u64)> }
 impl Mutn {
     fn value(off: usize, w: usize, be: bool, val: u64, what: &str) -> Mutn { Mutn { off, w, be, val, what: what.to_string(), ..Default::default() } }
     fn apply(&self, d: &[u8]) -> Vec<u8> {
         let mut v = d.to_vec();
+        for (o, w, be, val) in &self.pre { fields::wr(&mut v, *o, *w, *be, *val); }
         if self.w > 0 { fields::wr(&mut v, self.off, self.w, self.be, self.val); }
         if self.del.0 < self.del.1 { v.drain(self.del.0..self.del.1); }
         if self.cut > 0 { v.truncate(self.cut); }
@@ -604,6 +611,7 @@ impl Mutn {
         let mut t = if self.w > 0 { format!("{}@{:#x}/{}={:#x}", self.what, self.off, self.w, self.val) } else { self.what.clone() };
         if self.del.0 < self.del.1 { t.push_str(&format!(" delete[{:#x}..{:#x})", self.del.0, self.del.1)); }
         if self.cut > 0 { t.push_str(&format!(" keep[..{:#x})", self.cut)); }
+        for (o, w, _, val) in &self.pre { t.push_str(&format!(" with@{:#x}/{}={:#x}", o, w, val)); }
         t
     }
 }
@@ -620,7 +628,11 @@ fn run_sweep(kid: &mut Option<Kid>, idx: usize, c: &Carrier, limit: Duration) ->
         let part = &c.muts[from..];
         let mut msg = format!("SWEEP {} {} {}\n", idx, c.data.len(), part.len()).into_bytes();
         msg.extend_from_slice(&c.data);
-        for m in part { msg.extend_from_slice(format!("{} {} {} {} {} {} {}\n", m.off, m.w, m.be as u8, m.val, m.del.0, m.del.1, m.cut).as_bytes()); }
+        for m in part {
+            let mut line = format!("{} {} {} {} {} {} {}", m.off, m.w, m.be as u8, m.val, m.del.0, m.del.1, m.cut);
+            for (o, w, be, val) in &m.pre { line.push_str(&format!(" {} {} {} {}", o, w, *be as u8, val)); }
+            line.push('\n'); msg.extend_from_slice(line.as_bytes());
+        }
         // written from a thread: the child answers while it is still reading
         let mut si = k.child.stdin.take().unwrap();
         let wt = std::thread::spawn(move || { let r = si.write_all(&msg).and_then(|_| si.flush()); (si, r) });
@@ -707,10 +719,64 @@ fn structural_mutations(d: &[u8], found: &fields::Found, wanted: &dyn Fn(&str) -
             if c >= t || c < p.min_cut.max(1) || (p.off < t && p.off + p.w as usize > c) { continue; }
             let delta = (t - c) as u64;
             if cur < delta { continue; }
-            muts.push(Mutn { off: p.off, w: p.w as usize, be: p.be, val: cur - delta, del: (c, t), cut: 0, what: format!("target-moved-behind-a-field:{}", p.what) });
+            muts.push(Mutn { off: p.off, w: p.w as usize, be: p.be, val: cur - delta, del: (c, t), cut: 0, what: format!("target-moved-behind-a-field:{}", p.what), pre: vec![] });
             n += 1; if n >= 48 { break; }
         }
     }
+}
+
+/// fields that exist only under a condition on another field: the condition is set first (`Switch`), the readers
+/// run again on the result, and what they find there is swept: fields at new places with all boundary values,
+/// the other hot fields (whose meaning may have changed) with the reduced set
+fn switch_mutations(d: &[u8], found: &fields::Found, wanted: &dyn Fn(&str) -> bool, muts: &mut Vec<Mutn>) {
+    let base: std::collections::HashSet<(usize, u8)> = found.fields.iter().map(|f| (f.off, f.w)).collect();
+    let mut total = 0usize;
+    for sw in found.switches.iter().filter(|s| wanted(&s.what)) {
+        let pre: Vec<(usize, usize, bool, u64)> = sw.writes.iter().map(|(o, w, be, v)| (*o, *w as usize, *be, *v)).collect();
+        let mut copy = d.to_vec();
+        for (o, w, be, v) in &pre { fields::wr(&mut copy, *o, *w, *be, *v); }
+        muts.push(Mutn { what: sw.what.clone(), pre: pre.clone(), ..Default::default() });
+        let f2 = fields::find(&copy);
+        let (mut n, mut old) = (0usize, 0usize);
+        for f in &f2.fields {
+            if pre.iter().any(|(o, w, _, _)| f.off < o + w && *o < f.off + f.w as usize) { continue; }
+            let is_new = !base.contains(&(f.off, f.w));
+            if !is_new { if !f.hot || old >= 64 { continue; } old += 1; }
+            let cur = fields::rd(&copy, f.off, f.w as usize, f.be).unwrap_or(0);
+            for val in fields::values(f, cur, d.len(), &f2.dict, is_new && f.hot) {
+                muts.push(Mutn { off: f.off, w: f.w as usize, be: f.be, val, what: format!("{}+{}", sw.what, f.what), pre: pre.clone(), ..Default::default() });
+                n += 1;
+            }
+            if n >= 1500 { break; }
+        }
+        total += n; if total >= 8000 { break; }
+    }
+}
+
+/// a zip64 archive made here: one stored member whose sizes and offsets live in zip64 extra fields, zip64 end of
+/// central directory record and locator, all-ones markers in the classic records
+fn synth_zip64() -> Vec<u8> {
+    let name = b"big.bin"; let body = b"0123456789abcdef";
+    let mut d = vec![];
+    d.extend_from_slice(b"PK\x03\x04"); for v in [45u16, 0, 0, 0x6000, 0x5821] { d.extend_from_slice(&v.to_le_bytes()); }
+    for v in [0x1234_5678u32, 0xffff_ffff, 0xffff_ffff] { d.extend_from_slice(&v.to_le_bytes()); }
+    d.extend_from_slice(&(name.len() as u16).to_le_bytes()); d.extend_from_slice(&20u16.to_le_bytes()); d.extend_from_slice(name);
+    d.extend_from_slice(&1u16.to_le_bytes()); d.extend_from_slice(&16u16.to_le_bytes()); for v in [body.len() as u64, body.len() as u64] { d.extend_from_slice(&v.to_le_bytes()); }
+    d.extend_from_slice(body);
+    let cdo = d.len() as u64;
+    d.extend_from_slice(b"PK\x01\x02"); for v in [0x032du16, 45, 0, 0, 0x6000, 0x5821] { d.extend_from_slice(&v.to_le_bytes()); }
+    for v in [0x1234_5678u32, 0xffff_ffff, 0xffff_ffff] { d.extend_from_slice(&v.to_le_bytes()); }
+    for v in [name.len() as u16, 28, 0, 0xffff, 0] { d.extend_from_slice(&v.to_le_bytes()); }
+    d.extend_from_slice(&0x81a4_0000u32.to_le_bytes()); d.extend_from_slice(&0xffff_ffffu32.to_le_bytes()); d.extend_from_slice(name);
+    d.extend_from_slice(&1u16.to_le_bytes()); d.extend_from_slice(&24u16.to_le_bytes()); for v in [body.len() as u64, body.len() as u64, 0u64] { d.extend_from_slice(&v.to_le_bytes()); }
+    let cdl = d.len() as u64 - cdo;
+    let z64 = d.len() as u64;
+    d.extend_from_slice(b"PK\x06\x06"); d.extend_from_slice(&44u64.to_le_bytes()); for v in [45u16, 45] { d.extend_from_slice(&v.to_le_bytes()); }
+    for v in [0u32, 0] { d.extend_from_slice(&v.to_le_bytes()); } for v in [1u64, 1, cdl, cdo] { d.extend_from_slice(&v.to_le_bytes()); }
+    d.extend_from_slice(b"PK\x06\x07"); d.extend_from_slice(&0u32.to_le_bytes()); d.extend_from_slice(&z64.to_le_bytes()); d.extend_from_slice(&1u32.to_le_bytes());
+    d.extend_from_slice(b"PK\x05\x06"); for v in [0xffffu16, 0xffff, 0xffff, 0xffff] { d.extend_from_slice(&v.to_le_bytes()); }
+    for v in [0xffff_ffffu32, 0xffff_ffff] { d.extend_from_slice(&v.to_le_bytes()); } d.extend_from_slice(&0u16.to_le_bytes());
+    d
 }
 
 /// carriers for the boundary sweeps.  `all`: every repository sample as it is (time and memory bound on the
@@ -721,6 +787,7 @@ fn build_carriers(all: &[(String, Vec<u8>)], rng: &mut Rng, per_dir: usize, smal
     let mut v: Vec<Carrier> = vec![];
     let mut samples: Vec<(String, std::sync::Arc<Vec<u8>>)> = all.iter().map(|(n, d)| (n.clone(), std::sync::Arc::new(d.clone()))).collect();
     samples.push(("synthetic/zip".to_string(), std::sync::Arc::new(synth_zip())));
+    samples.push(("synthetic/zip64".to_string(), std::sync::Arc::new(synth_zip64())));
     for (n, d) in &samples { v.push(Carrier { label: n.clone(), fmt: "any".into(), mode: "sample", data: d.clone(), muts: vec![Mutn::value(0, 0, false, 0, "unmodified")] }); }
     // structured: greedy cover of the field kinds per directory, smallest samples first
     let mut by_dir: std::collections::BTreeMap<String, Vec<usize>> = Default::default();
@@ -733,8 +800,8 @@ fn build_carriers(all: &[(String, Vec<u8>)], rng: &mut Rng, per_dir: usize, smal
             let (n, d) = &samples[i];
             if d.len() > 600_000 || taken >= per_dir { continue; }
             let found = fields::find(d);
-            let news: Vec<&fields::Field> = found.fields.iter().filter(|f| !covered.contains(&f.what)).collect();
-            if news.is_empty() { continue; }
+            let news = found.fields.iter().filter(|f| !covered.contains(&f.what)).count() + found.switches.iter().filter(|s| !covered.contains(&s.what)).count();
+            if news == 0 { continue; }
             // a first carrier gets all its fields, later ones only the kinds of field not seen yet
             let use_all = taken == 0;
             let mut muts = vec![];
@@ -743,6 +810,8 @@ fn build_carriers(all: &[(String, Vec<u8>)], rng: &mut Rng, per_dir: usize, smal
                 for val in fields::values(f, cur, d.len(), &found.dict, f.hot) { muts.push(Mutn::value(f.off, f.w as usize, f.be, val, &f.what)); }
             }
             structural_mutations(d, &found, &|w: &str| use_all || !covered.contains(w), &mut muts);
+            switch_mutations(d, &found, &|w: &str| use_all || !covered.contains(w), &mut muts);
+            for sw in &found.switches { covered.insert(sw.what.clone()); }
             for f in &found.fields { covered.insert(f.what.clone()); }
             structured.push(Carrier { label: n.clone(), fmt: found.fmt.to_string(), mode: "structured", data: d.clone(), muts });
             taken += 1;
